@@ -67,6 +67,20 @@ def run(thorough=False):
             pass
         except Exception as ex:  # pragma: no cover
             bad.append(("float-raises-only-ValueError", (s, type(ex).__name__)))
+    # parse-nonempty: the empty string is rejected by int(., base) and float(.)
+    for base in (0, 2, 8, 10, 16, 36):
+        n += 1
+        try:
+            int("", base)
+            bad.append(("parse-nonempty", base))
+        except ValueError:
+            pass
+    n += 1
+    try:
+        float("")
+        bad.append(("parse-nonempty", "float"))
+    except ValueError:
+        pass
     # bool is an int: True == 1, dict key identity of 1 and True
     n += 3
     if not (True == 1 and False == 0 and {1: "a"}.get(True) == "a"):
